@@ -35,6 +35,8 @@ pub struct Shape {
     pub decimal_payoffs: bool,
     /// payoffs are small integers (ties allowed; only for totality checks)
     pub integer_payoffs: bool,
+    /// chance weights are small integers (exact rationals in a Gambit file)
+    pub integer_weights: bool,
 }
 
 pub const SHAPES: [&str; 8] =
@@ -61,6 +63,7 @@ pub fn shape(name: &str, r: &mut Rng) -> Shape {
         pay_scale: *r.pick(&[1e-3, 1.0, 1.0, 1.0, 1e3]),
         decimal_payoffs: false,
         integer_payoffs: false,
+        integer_weights: false,
     };
     match name {
         "tiny" => Shape { name: "tiny", max_depth: 2, max_nodes: 6, p_terminal: 0.2, ..base },
@@ -200,8 +203,24 @@ impl G<'_> {
                 None => self.r.fork(),
             };
             let rare = wr.coin(sh.p_rare_outcome);
-            let weights: Vec<f64> =
-                (0..n).map(|i| if rare && i == 0 && n > 1 { 1e-3 } else { 0.2 + wr.f() } * if shared { 1.0 } else { 1.0 }).collect();
+            let int_w = sh.integer_weights;
+            let weights: Vec<f64> = (0..n)
+                .map(|i| {
+                    if int_w {
+                        if rare && i == 0 && n > 1 {
+                            1.0
+                        } else if rare {
+                            50.0 + wr.below(50) as f64
+                        } else {
+                            1.0 + wr.below(5) as f64
+                        }
+                    } else if rare && i == 0 && n > 1 {
+                        1e-3
+                    } else {
+                        0.2 + wr.f()
+                    }
+                })
+                .collect();
             let budgets = self.split(budget - 1, n);
             let mut outs = vec![];
             for i in 0..n {
@@ -268,4 +287,16 @@ pub fn game_with(r: &mut Rng, shapes: &[&str], min_infosets: usize, tweak: impl 
             return (g, sh.name);
         }
     }
+}
+
+/// games for the command-line checks: every number is an exact short decimal / small integer
+pub fn cli_game(r: &mut Rng, min_infosets: usize, max_nodes: usize) -> (MNode, &'static str) {
+    let shapes = ["poker", "mixed", "degenerate", "simultaneous", "tiny", "chain", "lopsided", "bushy"];
+    game_with(r, &shapes, min_infosets, |s| {
+        s.decimal_payoffs = true;
+        s.integer_payoffs = false;
+        s.integer_weights = true;
+        s.pay_scale = 1.0;
+        s.max_nodes = s.max_nodes.min(max_nodes);
+    })
 }
